@@ -196,6 +196,7 @@ func Gen(prop, tier string, seed uint64) *kernel.Plan {
 	case "C18":
 		wSync = 3
 		wReset = 1
+		wPatch = 2 // a REST patch is a push like any other: it is announced, realtime clients follow
 	case "C13":
 		wReset = 1
 	}
